@@ -35,17 +35,21 @@ PROP = dict(
                    floors={"type_traits::add": 50000, "type_traits::add_basic": 500, "type_traits::add_interface": 500,
                            "type_traits::add_metatype": 500, "type_properties::id": 3000, "type_traits::get(id)": 100000,
                            "monitor:template-type-compared": 3000, "monitor:builtin-compared": 5000, "monitor:traits-compared": 100000,
-                           "monitor:name-to-id": 1000, "exhausted:generic": 20, "capacity:generic": 1792}),
+                           "monitor:name-to-id": 1000, "exhausted:generic": 20, "capacity:generic": 1792,
+                           "library-type-query": 4000, "monitor:library-type-first-query": 300, "monitor:library-type-repeated-query": 3000,
+                           "library-name-taken-first": 200, "monitor:library-type-name-was-taken": 150, "refused:library-type": 50}),
               dict(name="c06_libtypes", src=["c06_libtypes.c"], libs=["mptplot", "mptio", "mptcore"], batch=1,
                    env={"VF_ASAN_EXTRA": "detect_stack_use_after_return=1"},
                    floors={"mpt_color_typeid": 1500, "mpt_lattr_typeid": 1500, "mpt_line_typeid": 1500,
                            "mpt_graph_pointer_typeid": 1500, "mpt_axis_pointer_typeid": 1500, "mpt_world_pointer_typeid": 1500,
                            "mpt_text_pointer_typeid": 1500, "mpt_fpoint_typeid": 1500, "mpt_rawdata_type_traits": 1500,
                            "mpt_input_type_traits": 1500, "mpt_client_type_traits": 1500,
-                           "monitor:library-type-registered": 6000, "monitor:repeated-call-same-id": 15000,
+                           "monitor:library-type-registered": 4000, "monitor:repeated-call-same-id": 15000,
                            "monitor:libtype-compared": 100000, "monitor:libtype-name-compared": 20000,
                            "harness-registration": 5000, "stack-work": 5000, "library-types-registered": 11,
-                           "generic-range-filled": 20, "refused:library-registration": 50})],
+                           "generic-range-filled": 20, "refused:library-registration": 2000,
+                           "range-filled:basic": 80, "range-filled:generic": 80, "range-filled:interface": 80, "range-filled:metatype": 80,
+                           "monitor:library-after-exhaustion": 200})],
         rule=("case = one process running (a) a built-in sweep, (b) an exhaustion history or (c) a PRNG history of 40..420 operations "
               "(registrations of the four kinds with valid, too short, duplicate, anonymous names / valid and invalid traits; lookups by id "
               "and by name); non-trivial = (a), (b) always, (c) when >= 3 registrations of >= 2 kinds were accepted and >= 1 refused; "
@@ -53,7 +57,7 @@ PROP = dict(
               "operations through mpt::type_traits::add/add_basic/add_interface/add_metatype/get and type_properties<T>::id()/traits() for "
               "12 harness types and the built-in specialisations (every 6th history fills the generic range first); library-registrations leg: "
               "one process per PRNG history of 30..160 operations (call one of the 11 registering convenience functions, register a harness "
-              "type, overwrite the stack below the caller, look everything up; every 9th history fills the generic range), non-trivial when "
+              "type, overwrite the stack below the caller, look everything up; 5 of 12 histories first exhaust one or all id ranges with harness types, 1 of 12 fills the generic range midway), non-trivial when "
               ">= 6 library ids and >= 2 harness ids exist"),
         exhaustive_note="all 256 message value format codes and byte sizes 0..17 in every built-in sweep and exhaustion case; ids 0..0x1100 looked up completely at the end of every case; every range filled to refusal (64 basic, 48 interface, 1791 metatype, 1792 generic ids)",
         assumptions=SAN_BASE + ["built-in size table written with sizeof in harness/c06_registry.c (TypeUnixSocket = int, Type*Ptr = void *)",
